@@ -89,7 +89,18 @@ def path_casts(engine, ctx, params):
         tc3 = it.call_named('%s::<%s, %s, %s>::try_into_task_compatible' % (NV, TERM_TY, SENT_TY, TASK_TY), [deep_copy(wraps['term'][0])], [NVT], None)
         if bad is None and tc3.variant != 'Err': bad = 'try_into_task_compatible(term) succeeds'
     if bad is None: return {'status': 'ok', 'sample': {'punct': punct, 'budget components': nb}, 'extra': {'fns': list(it.fn_seen)}}
-    return {'status': 'violation', 'kind': 'casts', 'what': bad, 'message': bad, 'fns': list(it.fn_seen)}
+    m = ctx.model()
+    from fractions import Fraction
+    def fval(x):
+        v = m.eval(x, model_completion=True)
+        import struct
+        bits = m.eval(z3.fpToIEEEBV(v), model_completion=True).as_long() if not z3.is_fp_value(v) or not v.isNaN() else 0x7ff8000000000000
+        return struct.unpack('<d', struct.pack('<Q', bits))[0]
+    name = chr(m.eval(c, model_completion=True).as_long())
+    sspec = ('Sentence', punct, ('Word', name), ('Fixed', 3), truth)
+    tspec = ('Task', tuple(fval(x) for x in xs), punct, ('Word', name), ('Fixed', 3), truth)
+    return {'status': 'violation', 'kind': 'casts', 'what': bad, 'message': bad, 'fns': list(it.fn_seen),
+            'tokens': {'term': narsese_tokens(('Term', ('Word', name))), 'sentence': narsese_tokens(sspec), 'task': narsese_tokens(tspec)}, 'nb': nb}
 
 def path_lex_casts(engine, ctx, params):
     it = engine.new_interp(ctx, step_limit=300000)
@@ -149,7 +160,37 @@ def confirm(v, oracle):
         want = 'Err' if not b[1] else ('Task' if (b[0] and b[2]) else 'Sentence' if b[2] else 'Term')
         ga = a[1][1][0] if a[0] == 'ok' and a[1][0] == 'Ok' else 'Err'; gl = l[1][1][0] if l[0] == 'ok' and l[1][0] == 'Ok' else 'Err'
         return {'confirmed': ga != want or gl != want, 'why': 'native parsers classify %r as expected' % txt, 'replay': {'op': 'parse', 'args': ['ascii', hexs(txt)], 'text': txt}, 'what': '%s; native parse(%r) kind: enum %s, lexical %s, expected %s' % (v['what'], txt, ga, gl, want)}
-    return {'confirmed': False, 'why': 'no native probe for cast API (violation found in MIR only)'}
+    if v['kind'] == 'casts' and v.get('tokens'):
+        fails = native_cast_failures(oracle, v['tokens'], v['nb'])
+        return {'confirmed': bool(fails), 'why': 'native cast API satisfies every fact', 'replay': {'op': 'cast_ops', 'args': [v['tokens']['task']], 'others': v['tokens']},
+                'what': '%s; native: %s' % (v['what'], '; '.join(fails[:3]))}
+    return {'confirmed': False, 'why': 'no native probe for this cast API (violation found in MIR only)'}
+
+def native_cast_failures(oracle, toks, nb):
+    """the cast / accessor facts of the property, evaluated on the native build"""
+    out = []
+    facts = {k: oracle.ask('cast_ops', t) for k, t in toks.items()}
+    for k, (st, f) in facts.items():
+        if st != 'ok': out.append('%s: native %s' % (k, st)); continue
+        hot = [k == 'term', k == 'sentence', k == 'task']
+        if f['is'] != hot: out.append('is_* of a %s = %s' % (k, f['is']))
+        if f['ok'] != hot: out.append('try_into_{term,sentence,task} of a %s succeed: %s' % (k, f['ok']))
+        elif f['same'] != hot: out.append('try_into_%s(from_%s(v)) != v' % (k, k))
+    st, fs = facts['sentence']; stt, ft = facts['task']; stm, fm = facts['term']
+    if st == 'ok':
+        sent_val = oracle.ask('roundtrip', 'ascii', toks['sentence'])[1]['value']
+        want_task = ['Task', ['Task', sent_val[1], ['Empty']]]
+        if fs.get('cast_to_task') != want_task: out.append('cast_to_task(s) = %s' % (fs.get('cast_to_task'),))
+        if not fs.get('back_equal'): out.append('try_cast_to_sentence(cast_to_task(s)) != Ok(s)')
+        if fs.get('compat') != ['Ok', want_task]: out.append('try_into_task_compatible(sentence) = %s' % (fs.get('compat'),))
+        if stt == 'ok':
+            ts = ft.get('to_sentence')
+            if nb == 0 and ts != ['Ok', sent_val]: out.append('task with empty budget -> %s' % (ts,))
+            if nb > 0 and ts != ['Err', True]: out.append('task with a budget: try_cast_to_sentence = %s' % (ts,))
+            task_val = oracle.ask('roundtrip', 'ascii', toks['task'])[1]['value']
+            if ft.get('compat') != ['Ok', task_val]: out.append('try_into_task_compatible(task) != task')
+    if stm == 'ok' and fm.get('compat') != ['Err']: out.append('try_into_task_compatible(term) succeeds')
+    return out
 
 def key_of(v): return '%s:%s' % (v['kind'], v['what'][:60])
 
